@@ -340,8 +340,9 @@ Section Oracles.
   (* text.split("\n") *)
   Definition lines_of (text : str) : list str := split_ch NL text.
 
-  Definition parse_config (text : str) : res config :=
-    bind (parse_lines true (lines_of text) init) (fun st => Ok (config_of st)).
+  Definition parse_of_lines (ls : list str) : res config :=
+    bind (parse_lines true ls init) (fun st => Ok (config_of st)).
+  Definition parse_config (text : str) : res config := parse_of_lines (lines_of text).
 
   (* ---------------------------------------------------------------- the code before the repairs *)
   (* text.splitlines(): also breaks at VT FF FS GS RS CR NEL LS PS (an extra empty line between CR and
@@ -393,11 +394,15 @@ Section Oracles.
     && match expand_home_only src with Ok s' => str_eqb s' src | Exn _ => false end.
 
   (* ---------------------------------------------------------------- whole files of rules *)
-  Record rule_value := mkrv { v_dir : dspec; v_pat : str; v_exact : bool; v_msg : option str }.
-  Definition write_value (v : rule_value) : str := write_rule (v_dir v) (v_pat v) (v_exact v) (v_msg v).
-  Definition value_effect (v : rule_value) : effect := rule_effect (v_dir v) (v_pat v) (v_exact v) (v_msg v).
+  Record rule_value := mkrv { v_dir : str; v_pat : str; v_exact : bool; v_msg : option str }.
+  Definition spec_of (v : rule_value) : option dspec := find_dir (v_dir v) rule_dirs.
+  Definition write_value (v : rule_value) : str :=
+    v_dir v ++ [SP] ++ v_pat v ++ (if v_exact v then [SP; BAR] else [])
+      ++ match v_msg v with Some m => [SP; DQ] ++ escape m ++ [DQ] | None => [] end.
+  Definition value_effect (v : rule_value) : option effect :=
+    match spec_of v with Some sp => Some (rule_effect sp (v_pat v) (v_exact v) (v_msg v)) | None => None end.
   Definition wf_value (v : rule_value) : bool :=
-    wf_rule (v_dir v) (v_pat v) (v_exact v) (v_msg v) && existsb (fun sp => str_eqb (d_name sp) (d_name (v_dir v))) rule_dirs.
+    match spec_of v with Some sp => wf_rule sp (v_pat v) (v_exact v) (v_msg v) | None => false end.
   Definition no_nl (s : str) : bool := negb (mem_ch NL s).
   Definition one_line (v : rule_value) : bool :=
     no_nl (v_pat v) && match v_msg v with Some m => no_nl m | None => true end.
